@@ -489,7 +489,31 @@ func (d *fdst) Exists(ctx context.Context, t ocispec.Descriptor) (bool, error) {
 		b = 1
 	}
 	f.ev(fmt.Sprintf("XE.%d.%d", n, b), 0, -1)
+	f.snapshot()
 	return ok, nil
+}
+
+// snapshot (controlled schedules only: the segment between two parks is atomic w.r.t. the other operations):
+// the content of the underlying destination as a token DS.<id>+<id>+... for the model runner, which compares
+// it with the destination of the transition system at that event (intermediate-state correspondence)
+func (f *fcall) snapshot() {
+	if f.fs == nil {
+		return
+	}
+	var ids []string
+	for _, nd := range f.g.Nodes {
+		if nd.Foreign() {
+			continue
+		}
+		if ok, err := f.under.Exists(context.Background(), nd.Desc); err == nil && ok {
+			ids = append(ids, fmt.Sprint(nd.ID))
+		}
+	}
+	tok := "DS.-"
+	if len(ids) > 0 {
+		tok = "DS." + strings.Join(ids, "+")
+	}
+	f.ev(tok, 0, 0)
 }
 
 // monitor: the push of node n has just completed in the underlying store
@@ -551,10 +575,12 @@ func (d *fdst) push(ctx context.Context, t ocispec.Descriptor, rd io.Reader, ref
 	if f.hit("push", n, true) {
 		f.pause(n)
 		f.ev(fmt.Sprintf("PX.%d.%d.1", n, isRef), 0, -1)
+		f.snapshot()
 		return errFault
 	}
 	f.pause(n)
 	f.ev(fmt.Sprintf("PE.%d.%d.%s", n, isRef, res), 0, -1)
+	f.snapshot()
 	return err
 }
 
